@@ -42,18 +42,7 @@ Section Stream.
   Local Notation blocks_of := (blocks_of K kzero kadd kmul).
   Local Notation blocks_ok := (blocks_ok K).
   Local Notation off := (off K).
-
-  (* structural facts established by the constructor *)
-  Record geo (c : cfg) : Prop := mkGeo {
-    g_S : 0 < cS K c;
-    g_M : 1 <= cM K c;
-    g_tr : 0 <= cTr K c;
-    g_D : cM K c + cS K c - 1 <= cD K c;
-    g_nblk : cD K c - cM K c + 2 * cS K c <= cNblk K c * cS K c;
-    g_w0 : zlen (cW0 K c) = cS K c;
-    g_w1 : zlen (cW1 K c) = cS K c;
-    g_taps : Forall (fun tp => zlen tp <= cM K c) (cTaps K c)
-  }.
+  Local Notation geo := (geo K).
 
   Lemma geo_blocks_ok c : geo c -> blocks_ok c.
   Proof.
@@ -99,7 +88,7 @@ Section Stream.
     = Ok (ybuf_of c (hist ++ more) F (yr + yk), yr + yk).
   Proof.
     intros G Hyr Hyk HV Hcap Hpos.
-    pose proof (geo_blocks_ok c G) as B. destruct G.
+    pose proof (geo_blocks_ok c G) as B. destruct G as [gS gM gtr gD gnblk gw0 gw1 g_taps0].
     unfold Model.fill_y_buf.
     replace (yk <=? 0) with false by lia.
     unfold ybuf_of at 1.
@@ -158,7 +147,7 @@ Section Stream.
           yr - Z.of_nat k * cS K c,
           frames ++ map (frame_spec c X) (zrange F (Z.of_nat k))).
   Proof.
-    intros G. pose proof (g_S c G) as HS.
+    intros G. pose proof (g_S K c G) as HS.
     induction k as [|k IH]; intros fuel F yr frames Hyr Hcap Hlt Hge Hnf.
     - replace (yr - Z.of_nat 0 * cS K c) with yr in * by lia.
       replace (F + Z.of_nat 0) with F by lia.
